@@ -29,7 +29,7 @@ for name in sorted(os.listdir('/verif/seeded')):
         sh('git -C /repo checkout -- .')
     rows.append((name, prop, verdict, ', '.join(rules), meta.get('summary', '')[:110]))
     print(name, prop, verdict, rules, flush=True)
-with open('/verif/seeded/RESULTS.md', 'w') as f:
+with open('/verif/seeded/RESULTS.md' if not only else os.devnull, 'w') as f:      # a partial run (names given) does not replace the table
     f.write('# Seeded changes versus the checks\n\nEach row: a change to ponyorm/pony written by a fresh sub-agent that saw only the property text '
             '(confirmed: compiles, pinned suite passes, demo fails with it / passes without).  The verdict is what `./check <property> --tier quick` says with the patch applied to /repo '
             '(HEAD %s).  "first verdict" is what the checks said the first time the seed was tried (seeded/HISTORY.json, kept by hand): round 1 seeds were written '
